@@ -209,6 +209,7 @@ def run(ck):
         if results:
             (b, mode, target, recs, hdr), res = results[0]
             ck.sample({"mode": mode, "target": target, "emitted": e2e.struct_body(res.get("out", ""), target)[:200] if mode == "opaque" else "(not defined)"})
+        cpp_opaque_instantiations(ck, bindgen, tmp, quick)
         # ---- functions, variables, items, files
         d = os.path.join(tmp, "fs")
         os.makedirs(os.path.join(d, "sub"))
@@ -229,6 +230,76 @@ def run(ck):
                     ck.violation("C10-blocklist-overreach:" + flags[0], "a blocklist removes or stops naming something it should not", {"flags": flags, "missing": stxt, "output": out[-600:]})
     finally:
         shutil.rmtree(tmp, ignore_errors=True)
+
+
+def cpp_opaque_instantiations(ck, bindgen, tmp, quick):
+    """C++: instantiations of an opaque class template (by option, and implicitly through a non-type parameter) as members of plain,
+    packed and #pragma pack(N) records: the inline blob must have the C++ size and alignment, so every container keeps its layout"""
+    r = ck.rng
+    scal = ["char", "short", "int", "long long", "double", "void *"]
+    for case in range(3 if quick else 40):
+        recs, body = [], "template <class T> struct Pair { T a; T b; };\ntemplate <class T, int N> struct Arr { T v[N]; };\ntemplate <class T> struct Box { T inner; char flag; };\n"
+        for k, pack in enumerate(r.sample(["none", "packed", "pack2", "pack4", "pack8", "none"], 4)):
+            rec = e2e.Rec("H%d_%d" % (case, k))
+            ms = []
+            # blobs aligned above 4 carry repr(align), which rustc refuses inside any packed(N) type (C02 known finding E0588): packed
+            # containers only hold instantiations over char / short / int
+            pool = scal[:3] if pack != "none" else scal
+            for j in range(r.choice([2, 3, 4, 5])):
+                x = r.random()
+                if x < 0.35:
+                    t = r.choice(pool[:5])
+                elif x < 0.65:
+                    t = "Pair<%s>" % r.choice(pool)
+                elif x < 0.85:
+                    t = "Arr<%s, %d>" % (r.choice(pool[:5]), r.choice([1, 2, 3, 5]))
+                else:
+                    t = "Box<Pair<%s> >" % r.choice(pool[:5])
+                ms.append({"name": "m%d" % j, "decl": "%s m%d" % (t, j), "bitfield": None, "anon": False})
+            rec.members = ms
+            rec.features = {pack}
+            txt = "struct %s {\n%s}%s;\n" % (rec.name, "".join("  %s;\n" % m["decl"] for m in ms), " __attribute__((packed))" if pack == "packed" else "")
+            if pack.startswith("pack") and pack != "packed":
+                txt = "#pragma pack(push, %s)\n%s#pragma pack(pop)\n" % (pack[4:], txt)
+            body += txt
+            recs.append(rec)
+        d = os.path.join(tmp, "cppop%d" % case)
+        os.makedirs(d)
+        open(os.path.join(d, "t.hpp"), "w").write(body)
+        probe = '#include <cstdio>\n#include <cstddef>\n#include "t.hpp"\nint main() {\n'
+        for rec in recs:
+            probe += '  printf("%s %%zu %%zu", sizeof(%s), alignof(%s));\n' % (rec.name, rec.name, rec.name)
+            for m in rec.members:
+                probe += '  printf(" %s=%%zu", offsetof(%s, %s));\n' % (m["name"], rec.name, m["name"])
+            probe += '  printf("\\n");\n'
+        probe += "  return 0; }\n"
+        open(os.path.join(d, "p.cpp"), "w").write(probe)
+        rc, o, e = sh2(["clang++", "-std=c++14", "-w", "-Wno-invalid-offsetof", "-o", "p", "p.cpp"], cwd=d, timeout=120)
+        if rc != 0:
+            raise TieBroken("c10-cpp-probe", e[-800:])
+        rc, o, e = sh2(["./p"], cwd=d, timeout=60)
+        cn = e2e.parse_numbers(o)
+        for optname, flags in (("option", ["--opaque-type", "Pair", "--opaque-type", "Box"]), ("implicit-only", [])):
+            rc, out, err = sh2([bindgen, os.path.join(d, "t.hpp"), "--no-layout-tests"] + flags + ["--", "-x", "c++", "-std=c++14"], timeout=120)
+            ck.evaluations += 1
+            ck.nontrivial.add((body, optname))
+            base = {"header": body, "flags": flags + ["--", "-x", "c++", "-std=c++14"]}
+            if rc != 0:
+                ck.violation("C10-bindgen-failed:cpp-opaque", "bindgen fails on opaque template instantiations", dict(base, stderr=err[-400:]))
+                continue
+            if flags and re.search(r"pub struct Pair\b[^{]*\{[^}]*\bpub a\b", out):
+                ck.violation("C10-opaque-leaks-members", "an opaque class template exposes its members", dict(base, emitted=(re.search(r"pub struct Pair[^}]*\}", out) or [""])[0][:300]))
+            rn, e2_ = e2e.rust_probe(out, recs, d, "cppop")
+            if rn is None:
+                errs = e2e.rustc_errors(e2_, 3)
+                code = (re.search(r"E\d{4}", " ".join(errs)) or ["E?"])[0]
+                ck.violation("C10-cpp-opaque-does-not-compile:%s" % code, "bindings with opaque template instantiations as members do not compile", dict(base, rustc=errs))
+                continue
+            for rec in recs:
+                c, rr = cn.get(rec.name), rn.get(rec.name)
+                if rr is not None and rr != c:
+                    ck.violation("C10-container-layout:opaque-instantiation:%s" % sorted(rec.features)[0], "a record holding an opaque template instantiation does not keep its C++ layout",
+                                 dict(base, record=rec.name, clang=c, rustc=rr))
 
 
 def replay(ck, path):
